@@ -6,6 +6,7 @@ Helper lemmas live in Proofs/C37*.lean.
 Reading guide
 * updates:   update_rejected_unchanged, update_bad_input_rejected, update_errors_are_returned,
              update_accepted_wellformed, update_accepted_spread, new_wellformed
+* choice:    proposer_choice (max priority, tie → lowest address)
 * spread:    rescale_spread, inc_prologue_spread, inc_one_spread, reachable_spread_partial
              (full statement `spread_statement` is NOT proved for `times > 1`, see there)
 * fairness:  calm_run_closed_form, fairness_partial, fairness_counterexample
@@ -190,6 +191,16 @@ theorem reachable_spread_partial (s : VSet) (h : Reach (fun t => t = 1) s) :
 
 example : Reach (fun t => t = 1) ⟨[⟨0, 1, 1⟩, ⟨1, 2, -1⟩], 3, some 1⟩ :=
   Reach.new (valz := [⟨0, 1, 0⟩, ⟨1, 2, 0⟩]) (by decide)
+
+/-! ## the choice of the proposer -/
+
+/-- `getValWithMostPriority` (with `CompareProposerPriority`'s tie-break) picks a validator of
+maximal priority and, among those, the one with the LOWEST address. -/
+theorem proposer_choice (vs : List Val) (m : Val) (hs : SortedAddr vs) (h : most vs = some m) :
+    m ∈ vs ∧ ∀ v ∈ vs, v.prio ≤ m.prio ∧ (v.prio = m.prio → m.addr ≤ v.addr) :=
+  ⟨(most_spec h).1, most_lowest_address hs h⟩
+
+example : most [⟨1, 5, 7⟩, ⟨3, 5, 9⟩, ⟨4, 1, 9⟩] = some ⟨3, 5, 9⟩ := by decide
 
 /-! ## fairness -/
 
